@@ -73,7 +73,8 @@ def encodeUrl (e : Env) (s : Str) : R Url := do
           | some pt => host ++ [58] ++ natToStr pt
         pure (netloc, some { rawHost := some rawHost, explicitPort := np.port, rawUser := none, rawPassword := none })
       else
-        let ru := requoteOpt e np.user
+        -- `(REQUOTER(username) or None) if username else username`: a user that requotes to "" is no user
+        let ru := (requoteOpt e np.user).bind (fun s => if s.isEmpty then none else some s)
         let rp := requoteOpt e np.password
         let netloc := makeNetloc (q e Gen.QUOTER) ru rp (some host) np.port false
         pure (netloc, some { rawHost := some rawHost, explicitPort := np.port, rawUser := ru, rawPassword := rp })
